@@ -25,6 +25,7 @@ Definition spec_step (m : list item) (o : op) : list item * out :=
   | ORemoveIf md r => let m' := filter (negp (modp md r)) m in (m', RNum (Z.of_nat (length m) - Z.of_nat (length m')))
   | OCopy => (m, RUnit)
   | OAddAt k v | OInsertNoMem k v => if sp_mem m k then (m, RBool false) else ((k, v) :: m, RBool true)
+  | OInsertFail k v => if sp_mem m k then (m, RBool false) else (m, RUnit)   (* absent key: the implementation must throw and change nothing *)
   end.
 
 (* outputs are compared literally, except that a traversal may come in any order *)
